@@ -39,7 +39,30 @@ func forEachTree(a *vlib.Args, maxNodes, level int, families bool, f func(idx in
 			}
 		})
 	}
+	if families && bigOffsetFamily {
+		bigOffsetCases(func(c treeCase) {
+			idx++
+			if a.Mine(idx) {
+				f(idx, c)
+			}
+		})
+	}
 	return idx
+}
+
+// bigOffsetFamily adds family F8 (C01 only: each case is a 16 MiB build).
+var bigOffsetFamily bool
+
+// F8: a filler payload that pushes the following offsets across 2^24, the third byte boundary of the 32-bit offsets of
+// the big table form (a message larger than the default mpx window travels as one such value).
+func bigOffsetCases(f func(treeCase)) {
+	for _, s := range []int{1<<24 - 3, 1<<24 + 2} {
+		fill := tree.B(tree.Bytes, tree.Fill(s, -1))
+		tail := tree.I(tree.Int32, -77)
+		f(treeCase{fmt.Sprintf("F8 list filler=%d", s), tree.L(fill, tail, tree.B(tree.String, []byte("end")))})
+		f(treeCase{fmt.Sprintf("F8 message filler=%d asc", s), tree.M(tree.Fd(1, fill), tree.Fd(2, tail), tree.Fd(300, tree.B(tree.String, []byte("end"))))})
+		f(treeCase{fmt.Sprintf("F8 message filler=%d desc", s), tree.M(tree.Fd(2, fill), tree.Fd(1, tail))})
+	}
 }
 
 func altLeaf(i int) *tree.Node {
